@@ -88,6 +88,27 @@ theorem dedup_key_eq : Extracted.dedupKeyFields = dedupKeyFields := by decide
 theorem blind_eq (a : BlindAtoms) : Extracted.blindCore a = blindCore a := by
   rcases a with ⟨x, y⟩; cases x <;> cases y <;> rfl
 
+/-- the variant of `processing.py` the translator recognised (`Extracted.repairs`) is the one the property
+    theorems are named after: /repo 02af7ce (423b86f, 30557a0 and the rework of 608a57d). The flags are not
+    trusted: `blind_purge_eq` / `waiting_eq` / `forget_eq` re-derive them from the translated skeletons. -/
+theorem repairs_known : Extracted.repairs = Repairs.rework := by decide
+
+/-- /repo 423b86f: the blind branch purges the progress records of `get_resource_handlers(resource)`
+    before it drops the changing cause (the model's `purgeIds`) -/
+theorem blind_purge_eq : Extracted.blindPurges = Extracted.repairs.blindPurge ∧ Extracted.blindPurges = true := by
+  decide
+
+/-- the early exit returns a delay besides the spawning delays: the translated if-chain is the model's
+    `waitingCore` at the recognised variant (/repo 30557a0; the rework adds the carried branch) -/
+theorem waiting_eq (a : WaitAtoms) : Extracted.waitingExitCore a = waitingCore Extracted.repairs a := by
+  rcases a with ⟨x, y, z, w⟩; cases x <;> cases y <;> cases z <;> cases w <;> rfl
+
+/-- /repo 608a57d (removed again by the rework): a carried patch that yields no operation on the body at
+    hand is forgotten before the cycle -/
+theorem forget_eq (a : ForgetAtoms) :
+    Extracted.forgetCarriedCore a = (Extracted.repairs.forgetFulfilled && forgetCore a) := by
+  rcases a with ⟨x, y⟩; cases x <;> cases y <;> rfl
+
 theorem finalizer_decision_eq (a : FinAtoms) :
     Extracted.mustBlockCore a = mustBlockCore a ∧ Extracted.addingCore a = addingCore a ∧
     Extracted.removingCore a = removingCore a := by
